@@ -71,6 +71,11 @@ theorem canonical_form_is_flat (cls ty : Nat) (rd : Rdata) (origin : Option Name
       .ok (canonFlat (lowered ConstsC15.canonTable cls ty) rd 0) :=
   fieldsWire_abs _ origin rd 0 h
 
+/-- non-vacuity of `canonical_form_no_compression`: a relative mixed-case name completed by an origin -/
+example : WfName [[77, 120]] ∧ nameWireFile [[77, 120]] (some [[69, 88], []]) true = .ok [2, 109, 120, 2, 101, 120, 0]
+    ∧ decodeNoPtr 3 ([2, 109, 120, 2, 101, 120, 0] ++ [192, 12]) = some ([[109, 120], [101, 120], []], [192, 12]) := by
+  refine ⟨⟨?_, ?_, ?_⟩, ?_, ?_⟩ <;> decide
+
 example : allAbs [Field.raw [0, 10], Field.name [[77, 120], [69, 88], []]] := by
   intro n hn; simp at hn; subst hn; decide
 
@@ -208,6 +213,8 @@ theorem bitmap_exact (ts : List Nat) (h : ∀ t ∈ ts, 0 < t ∧ t < 65536) :
     (∀ w ∈ fromRdtypes ts, w.1 < 256 ∧ w.2 ≠ [] ∧ w.2.length ≤ 32 ∧ w.2.getLast? ≠ some 0) :=
   fromRdtypes_exact ts h
 
+example : ∀ t ∈ [47, 1, 46, 1234, 15, 1], 0 < t ∧ t < 65536 := by decide
+
 example : fromRdtypes [47, 1, 46, 1234, 15, 1] = [(0, [64, 1, 0, 0, 0, 3]), (4, List.replicate 26 0 ++ [32])] := by decide
 
 /-! ## NSEC chain -/
@@ -274,6 +281,28 @@ example : exZone.Pairwise (fun a b => cmpOrder a.name b.name < 0) ∧ (∀ z ∈
     contig exZone = true ∧
     (secure exConsts [[101, 120], []] exZone).map (·.name) =
       [[[101, 120], []], [[97], [101, 120], []], [[115, 117, 98], [101, 120], []], [[122, 122], [101, 120], []]] := by
+  decide
+
+/-- the remaining hypotheses of `nsec_chain_partial` on the same zone: the node table resolves every name, and
+the last secure name is not the empty name -/
+example : (∀ z ∈ exZone, lookupNode exZone z.name = some z) ∧
+    (∀ z, (secure exConsts [[101, 120], []] exZone).getLast? = some z → z.name ≠ []) := by
+  refine ⟨by decide, ?_⟩
+  intro z hz
+  have : (secure exConsts [[101, 120], []] exZone).getLast? = some ⟨[[122, 122], [101, 120], []], [1]⟩ := by decide
+  rw [this] at hz
+  cases hz
+  decide
+
+/-- and the chain itself, as shipped and with the RFC 4035 §2.3 bitmap at the delegation point
+(KNOWN_FINDINGS `non-authoritative-type-at-delegation-point`): `sub` announces A (its glue) as shipped,
+only NS and DS when `cutTypes` is set -/
+example :
+    (nsecsOf (signZoneNsec exConsts .asShipped [[101, 120], []] exZone true)).map (fun r => (r.1, r.2.1)) =
+      [([[101, 120], []], [[97], [101, 120], []]), ([[97], [101, 120], []], [[115, 117, 98], [101, 120], []]),
+       ([[115, 117, 98], [101, 120], []], [[122, 122], [101, 120], []]), ([[122, 122], [101, 120], []], [[101, 120], []])]
+    ∧ nsecTypes exConsts [[101, 120], []] ⟨[[115, 117, 98], [101, 120], []], [2, 43, 1]⟩ = [2, 43, 1]
+    ∧ nsecTypes { exConsts with cutTypes := true } [[101, 120], []] ⟨[[115, 117, 98], [101, 120], []], [2, 43, 1]⟩ = [2, 43] := by
   decide
 
 /-- The recorded defect (DESIGN D13): a relativized zone whose only name is the apex `@` gets no NSEC with the
